@@ -63,11 +63,13 @@ PG = "0-1 entries; backend: miss / error / error+reader / stream of any length f
 h("VerifProxyGetAC", D, GET, PG, "get through the backend (AC): miss, error or a complete hit; nothing cached or leaked otherwise", unwind=16)
 h("VerifProxyGetCasRaw", D, GET, PG, "get through the backend (uncompressed CAS)", unwind=16)
 h("VerifProxyGetCasZstd", D, GET, PG + "; fetched compressed blob has 45 arbitrary header bytes (2-entry table)", "get through the backend (compressed CAS)", unwind=16)
+h("VerifProxyGetCasZstdShort", D, GET, "backend object with a valid finalised header (one chunk, table end symbolic 46..4 MiB) whose stream delivers a symbolic number of bytes (45..8 MiB) without error; Get or GetZstd, size known or unknown", "a compressed object whose stream ends early or runs on is neither served nor cached; a complete one is a hit", unwind=16)
 h("VerifProxyGetCasZstdZ", D, GET, PG + "; as above", "GetZstd through the backend (compressed CAS)", unwind=16)
 
 AC = ["zz_verif_ac.go"]
 ACB = "ActionResult with <=%d output files (inline or not), <=1 output directory whose Tree has one root file and one child file, optional stdout/stderr digests; each referenced blob in the index or not, indexed and declared sizes symbolic; one unrelated entry"
 h("VerifValidatedAC", D, AC, ACB % 1, "GetValidatedActionResult: hit iff every referenced blob is present with its declared size; absence is a miss, not an error; a hit touches every local referenced blob", unwind=16)
+h("VerifValidatedACMixed", D, AC, "stored result with two output files: the first with inline contents, the second by digest (present with matching size, with another size, or absent)", "an inlined output file does not hide the dependency on a later output file", unwind=16)
 h("VerifValidatedACDir", D, AC, "ActionResult with one output directory whose Tree has one root file and one child file, optional stdout/stderr", "as VerifValidatedAC (Tree path)", unwind=16)
 h("VerifValidatedAC2", D, AC, ACB % 2, "as VerifValidatedAC", unwind=16)
 h("VerifValidatedACProxy", D, AC, "one output file + optional stdout digest, backend with arbitrary verdict, 2 containsWorker goroutines + the wait goroutine, <=1 preemption, every choice of a ready select case explored", "hit only if every blob is local or vouched for by the backend (fail-fast search)", unwind=16, switches=1, timeout_s=1500, races=True)
@@ -154,6 +156,7 @@ h("VerifUpdateActionResult", SV, ACH, "UpdateActionResult with one of 13 defect 
 h("VerifGetActionResultInline", SV, ACH, "stored result with stdout and one output file, each inline (1..4 MiB symbolic) or by digest (1..4 MiB symbolic, blob available); inline_stdout / inline_output_files requested or not; de-inlining Puts succeed", "GetActionResult: total inlined bytes <= 3 MiB budget, inlined bytes are the blob / the stored bytes, de-inlined only after storing under the true digest", unwind=16)
 h("VerifGetActionResultMiss", SV, ACH, "-", "validated miss maps to NotFound; nil request / digest rejected")
 
+h("VerifBytestreamRead", SV, ["zz_verif_bsread.go"], "blobs/<h>/5000000 (three 2 MiB messages); read_offset and read_limit any int64; blob present or absent; cache reader with or without one short read; client gone at the 1st..3rd Send or not", "ByteStream.Read sends exactly [offset,n) in order, never more than a non-zero read_limit; OutOfRange/NotFound mapping; reader closed", unwind=16)
 h("VerifSpliceBlob", SV, ["zz_verif_splice.go"], "two chunks of symbolic sizes 1..2^30, each present or absent; declared size, max_blob_size symbolic; the cache has room, refuses without reading (507), or already holds the blob; the concatenation is or is not the declared blob", "SpliceBlob acknowledges only a stored concatenation of the right size and digest; size limit; no goroutine or chunk reader left on any return", unwind=16)
 HT = ["zz_verif_http.go", "zz_verif_ac.go"]
 h("VerifHTTPGet", SV, HT, "GET /cas/<h> or /ac/<h> (raw), Accept-Encoding with or without zstd, cache answers miss / error / stream of symbolic size", "HTTP GET: the read goes to the URL's namespace, compressed reads only from the CAS, body = the blob, Content-Length = size", unwind=16)
@@ -170,21 +173,21 @@ STUBS = ["prometheus, log: empty bodies", "fmt.Errorf / errors.Is modelled (text
 P = {
  "C01": (["VerifWriteZstd2", "VerifPutCasZstd", "VerifPutCasRaw", "VerifPutAC", "VerifBatchUpdateBlobs", "VerifBytestreamWrite2", "VerifBytestreamWriteZstd2", "VerifHTTPPut", "VerifSpliceBlob"], ["VerifWriteZstd3", "VerifWriteIdentity", "VerifPutCasZstdProxy", "VerifPutCasRawProxy"],
          [CODEC, HASH, FSM], ["real sha256 and zstd", "blobs of more than 3 chunks", "the HTTP/gRPC transports' own length enforcement"]),
- "C02": (["VerifReadUncompressed4", "VerifReadZstd4", "VerifReadIdentity", "VerifReadWrongSize", "VerifGetCasZstd", "VerifGetCasZstdAsZstd", "VerifGetCasRaw", "VerifGetAC", "VerifGetSpecial", "VerifHTTPGet", "VerifBatchReadBlobs"],
+ "C02": (["VerifReadUncompressed4", "VerifReadZstd4", "VerifReadIdentity", "VerifReadWrongSize", "VerifGetCasZstd", "VerifGetCasZstdAsZstd", "VerifGetCasRaw", "VerifGetAC", "VerifGetSpecial", "VerifHTTPGet", "VerifBatchReadBlobs", "VerifBytestreamRead"],
          ["VerifReadUncompressed6", "VerifReadZstd6", "VerifGetCasRawAsZstd"], [CODEC, FSM], ["that a standard zstd decoder decodes the frames", "tables of more than 6 entries", "read offsets beyond the blob when the size is not given"]),
  "C03": (["VerifLRULemmas", "VerifLRUAdd3", "VerifLRUReserve3", "VerifLRUUnreserve", "VerifLRUGet", "VerifLRURemove", "VerifPutAC", "VerifGetAC", "VerifProxyGetAC"],
          ["VerifLRUAdd4", "VerifLRUReserve4", "VerifPutCasZstd", "VerifPutCasRaw", "VerifGetCasZstd", "VerifProxyGetCasRaw"], [FSM, CODEC, HASH], ["more live entries than the bound in one step", "sizes >= 2^61", "interleavings (C07)"]),
  "C04": (["VerifPutCasRaw", "VerifPutAC", "VerifGetAC", "VerifGetCasRaw", "VerifProxyGetAC", "VerifProxyGetCasZstd", "VerifLRUAdd3", "VerifLRURemove"],
          ["VerifPutCasZstd", "VerifPutCasZstdProxy", "VerifGetCasZstd", "VerifProxyGetCasRaw", "VerifProxyGetCasZstd"], [FSM, CODEC, HASH], ["files created by anything other than bazel-remote", "directory fsync"]),
  "C05": (["VerifLRUAdd3", "VerifLRUReserve3", "VerifLRUGet", "VerifGetAC", "VerifContains", "VerifFindMissing3"], ["VerifLRUAdd4", "VerifLRUReserve4", "VerifGetCasZstd", "VerifGetCasRaw"], [FSM], ["atime order after restart (C09)", "more live entries than the bound"]),
- "C06": (["VerifValidatedAC", "VerifValidatedACDir", "VerifValidatedACProxy", "VerifGetActionResultMiss"], ["VerifValidatedAC2"], [FSM, "proto.Unmarshal by identity: stored bytes decode to the registered message"], ["real protobuf decoding", "races between the check and a concurrent eviction"]),
- "C07": (["VerifConcReadersCorrupt", "VerifConcReadOverwrite", "VerifConcReadOverwriteEvict", "VerifConcPutPut", "VerifConcCorruptReadPut", "VerifFindMissingProxy1", "VerifFindMissingBatchProxy"], ["VerifConcPutPutDeep", "VerifConcReadOverwriteDeep", "VerifValidatedACProxy"], [FSM, HASH, CODEC, "sequentially consistent interleaving of goroutines at the scheduling points (mutex acquisition, file-system step, channel operation, go statement); a blocked goroutine hands over round-robin"],
+ "C06": (["VerifValidatedAC", "VerifValidatedACMixed", "VerifValidatedACDir", "VerifValidatedACProxy", "VerifGetActionResultMiss"], ["VerifValidatedAC2"], [FSM, "proto.Unmarshal by identity: stored bytes decode to the registered message"], ["real protobuf decoding", "races between the check and a concurrent eviction"]),
+ "C07": (["VerifConcReadersCorrupt", "VerifConcReadOverwrite", "VerifConcReadOverwriteEvict", "VerifConcPutPut", "VerifConcCorruptReadPut", "VerifFindMissingProxy1", "VerifFindMissingBatchProxy", "VerifBytestreamWrite2"], ["VerifConcPutPutDeep", "VerifConcReadOverwriteDeep", "VerifValidatedACProxy"], [FSM, HASH, CODEC, "sequentially consistent interleaving of goroutines at the scheduling points (mutex acquisition, file-system step, channel operation, go statement); a blocked goroutine hands over round-robin"],
          ["data races on the abstract byte objects and inside the environment models (the happens-before obligations cover pointer loads/stores and map operations of repository and dependency code; weak-memory effects are not modelled)", "more than two concurrent requests, more preemptions than the bound", "backend fetches and the FindMissing worker pool under preemption (decided for their own schedules in C10/C12)", "the gRPC/HTTP handlers above the disk layer"]),
  "C08": (["VerifCrashPutCasRaw", "VerifCrashPutAC", "VerifCrashPutCasZstd", "VerifCrashPutCasZstdBad", "VerifCrashFetchCasZstd", "VerifCrashFetchCasRaw", "VerifCrashFetchAC"], [], [FSM, HASH, CODEC], ["power loss, write reordering, fsync (process-kill semantics only)", "kill during start-up migration", "kill during overwrite/eviction (uploads and backend fetches into an empty cache only)"]),
  "C09": (["VerifLoad2", "VerifLoadDup", "VerifLoadExtras", "VerifGetCasRawInZstdMode", "VerifGetCasZstdInRawMode"], ["VerifLoad3", "VerifGetCasRawInZstdModeAsZstd", "VerifGetCasZstdInRawModeAsZstd"], [FSM, "access times are the model's (distinct) integers"], ["real readdir order and atime semantics (relatime)", "legacy v0/v1 layouts (migration code is executed only on a current layout)", "more than 3 files", "schedules other than round-robin"]),
  "C10": (["VerifFindMissing3", "VerifFindMissingProxy1", "VerifFindMissingBatch", "VerifFindMissingBatchProxy", "VerifFilterNonNil", "VerifContains", "VerifProxyGetCasZstd"], ["VerifFindMissing4", "VerifFindMissingProxy2", "VerifFindMissingBatch2"], ["the backend is an arbitrary per-hash verdict"], ["hundreds of digests with all states symbolic", "512 real workers", "more than 2 preemptive context switches"]),
  "C11": (["VerifValidateFilesDirs", "VerifValidateSymlinks", "VerifValidateNil", "VerifGetActionResultInline", "VerifGetActionResultMiss", "VerifUpdateActionResult", "VerifHTTPPutAC"], [], ["strings are ASCII (Go byte strings and SMT code-point strings agree there)"], ["field-by-field fidelity of proto.Marshal/Unmarshal and protojson", "non-ASCII strings"]),
- "C12": (["VerifProxyGetAC", "VerifProxyGetCasRaw", "VerifProxyGetCasZstd", "VerifPutRawProxy"], ["VerifProxyGetCasZstdZ", "VerifPutCasZstdProxy", "VerifPutCasRawProxy"], [FSM, CODEC, HASH, "the backend is an arbitrary cache.Proxy stub"], ["minio/azure/gcs SDK calls", "real HTTP body semantics"]),
+ "C12": (["VerifProxyGetAC", "VerifProxyGetCasRaw", "VerifProxyGetCasZstd", "VerifProxyGetCasZstdShort", "VerifPutRawProxy"], ["VerifProxyGetCasZstdZ", "VerifPutCasZstdProxy", "VerifPutCasRawProxy"], [FSM, CODEC, HASH, "the backend is an arbitrary cache.Proxy stub"], ["minio/azure/gcs SDK calls", "real HTTP body semantics"]),
  "C13": (["VerifGrpcBasicAuth", "VerifGrpcBasicAuthAccepts", "VerifGrpcMTLS", "VerifHTTPAuthWiring", "VerifHTTPClientCert"], [], ["auth.CheckSecret is an arbitrary predicate", "strings are ASCII"], ["htpasswd hash checking, TLS handshake and certificate verification, LDAP", "whether grpc-go calls the interceptors for every method"]),
  "C14": (["VerifReadArbitrary2", "VerifReadZstd4", "VerifReadUncompressed4", "VerifGetCasZstd", "VerifGetSpecial", "VerifGetTree", "VerifBatchReadBlobs", "VerifBytestreamWrite2", "VerifFindMissingProxy1", "VerifValidatedACProxy", "VerifSpliceBlob"], ["VerifReadArbitrary3", "VerifGetCasZstdAsZstd", "VerifGetCasRawAsZstd", "VerifProxyGetCasZstd"], [FSM, CODEC], ["panics inside stubbed libraries", "resource exhaustion by volume"]),
  "C15": (["VerifGrpcACKeyMangling", "VerifLookupKey", "VerifGetSpecial", "VerifHTTPGet", "VerifHTTPInstanceName"], [], ["sha256 is injective on byte strings (digest texts are fresh 64-hex strings with pairwise (content equal <=> digest equal))", "strings are ASCII", "disk.Cache replaced by a recording stub"], ["sha256 itself", "non-ASCII instance names", "isolation after eviction (C03/C04)", "the HTTP path-prefix clause: harnesses VerifParseRequestURL / VerifHTTPGrpcSameKey exist but no solver decides 'every URL /I/ac/h matches ^/?(.*/)?(ac/|cas/)([a-f0-9]{64})$ with instance I' within budget (cvc5 and z3 time out at 60 s even with |I| <= 6), so the URL grammar is not claimed"]),
